@@ -54,6 +54,7 @@ type Case struct {
 	E      *EqD
 	Text   []byte
 	Stream string
+	Reject string // C06jp corpus: entry families (X, S, F) that must reject the text
 }
 
 func (c *Case) line() string {
@@ -204,8 +205,13 @@ func main() {
 						if line == "" || strings.HasPrefix(line, "#") {
 							continue
 						}
-						if b, err := lib.UnhexF(strings.Fields(line)[0]); err == nil {
-							emit(Case{Kind: "c06", Text: b, Stream: "corpus"})
+						fs := strings.Fields(line)
+						if b, err := lib.UnhexF(fs[0]); err == nil {
+							c := Case{Kind: "c06", Text: b, Stream: "corpus"}
+							if len(fs) > 1 && fs[1] != "#" && strings.Trim(fs[1], "XSF") == "" {
+								c.Reject = fs[1]
+							}
+							emit(c)
 						}
 					}
 				}
